@@ -205,7 +205,27 @@ class SymArray:
             return _np.asarray(SymArray(k))
         return k
 
+    def _sym_lookup(self, key):
+        """table[i] for a 1-D table of concrete numbers and a symbolic integer index array: one uninterpreted
+        application per element (same table contents and same index term -> same value)."""
+        import hashlib
+
+        from . import core
+
+        flat = [SV.of(e) for e in self.a.reshape(-1)]
+        if any(e.t is not None for e in flat):
+            raise core.Unsupported("symbolic index into an array with symbolic entries")
+        h = hashlib.sha1(repr([str(e.c) for e in flat]).encode()).hexdigest()[:10]
+        out = _np.empty(key.a.shape, dtype=object)
+        for idx in _np.ndindex(*key.a.shape):
+            e = SV.of(key.a[idx])
+            out[idx] = flat[int(e.c)] if e.t is None else SV(t=core.uf_apply("opq_select_" + h, [e.term()]))
+        return SymArray(out, self.kind)
+
     def __getitem__(self, key):
+        if isinstance(key, SymArray) and self.a.ndim == 1 and key.a.size and key.kind != "bool" and any(
+                isinstance(e, SV) and e.t is not None and e.kind != "B" for e in key.a.reshape(-1)):
+            return self._sym_lookup(key)
         k = self._key(key)
         r = self.a[k]
         if isinstance(r, _np.ndarray):
